@@ -284,3 +284,5 @@ def check(ctx):
         ok = pn.get("signal_pos", "").startswith("torch.argwhere(signal >= 0)") and pn.get("signal_neg", "").startswith("torch.argwhere(signal < 0)")
         ctx.ob("C08.d", f"{cname}.forward: samples are partitioned by signal >= 0 / signal < 0", ok, f"{pn}", f.where)
     ctx.assume("spike tensors are {0,1}-valued; batch reductions behave as documented")
+    # ---------------- (g) the trace kernels behind the trace monitors (shared with C07.a)
+    ctx.import_clauses("C07", {"C07.a"}, "C08.g", minimum=8)
